@@ -12,7 +12,7 @@ from pyvc.engine import Obj
 from pyvc.sym import And, Not
 
 ID = "C07"
-CONTRACTS = ["pendulum.parsing.iso8601.parse_iso8601", "props.C07.c07_parse", "props.C07.c07_parse_exact"]
+CONTRACTS = ["pendulum.parsing.iso8601.parse_iso8601", "props.C07.c07_parse", "props.C07.c07_parse_exact", "props.C07.c07_parse_tz"]
 LEMMAS = []
 
 
@@ -28,6 +28,10 @@ def c07_parse_exact(text):
     return pendulum.parse(text, exact=True)
 
 
+def c07_parse_tz(text, tz):
+    return pendulum.parse(text, tz=tz)
+
+
 _INLINE = ["pendulum.parser.parse"]
 
 
@@ -36,13 +40,18 @@ def _is_utc(tz):
 
 
 def _zone_clause(result, tzv):
-    """the zone of an aware result: UTC when the string has no offset or 'Z', the denoted fixed offset otherwise"""
+    """the UTC offset of an aware result (the statement speaks of the offset, not of the tzinfo class): 0 when the string has no
+    offset or 'Z', the denoted offset otherwise; pendulum's UTC zone object has offset 0, a FixedTimezone its `_offset`"""
     t = result.f.get("tzinfo")
     if t is None:
         return False
-    if tzv is None or tzv == ("Z",):
-        return _is_utc(t)
-    return sym.eq(t.f["_offset"], tzv[1]) if "_offset" in t.f else False
+    if _is_utc(t):
+        off = 0
+    elif isinstance(t, Obj) and "_offset" in t.f:
+        off = t.f["_offset"]
+    else:
+        return False
+    return sym.eq(off, 0 if (tzv is None or tzv == ("Z",)) else tzv[1])
 
 
 def _wrap_case(sh, exact):
@@ -121,6 +130,56 @@ def _wrap_cases(exact):
     return {_p.shape_name(*sh): _wrap_case(sh, exact) for sh in _p.shapes("quick")}
 
 
+def _tz_case(sh):
+    """parse(text, tz=<any fixed-offset zone>): the tz option is the zone of a string WITHOUT an offset and never replaces an
+    offset the string carries (also a zero one: 'Z', '+00:00')"""
+    from contracts.tz import fresh_fixed
+
+    base = _p._shape_case(sh)
+
+    class case:
+        options = {"transparent": _INLINE}
+
+        def applies(text, tz):
+            return False
+
+        def args(F):
+            a, cons = base.args(F)
+            case._fields = base._fields
+            tz, zc = fresh_fixed(F, "tzopt")
+            return dict(text=a["text"], tz=tz), cons + [zc]
+
+        raises = [(ValueError, "impossible_date_time_or_offset", lambda text, tz: Not(_p.denoted(case._fields)[0]))]
+
+        def result(F, text, tz):
+            raise NotImplementedError
+
+        def ensures(result, text, tz):
+            valid, date, time, tzv = _p.denoted(case._fields)
+            if not (isinstance(result, Obj) and result.cls is pendulum.DateTime):
+                return [("returns_a_DateTime", False)]
+            t = result.f.get("tzinfo")
+            d_ord = spec.ordinal(date[1], date[2], date[3]) if date[0] == "ymd" else date[1]
+            out = [("returns_a_DateTime", True),
+                   ("the_date_it_denotes", And(spec.valid_date(result.year, result.month, result.day), eq(spec.date_ord(result), d_ord))),
+                   ("the_time_it_denotes", And(spec.valid_time(result.hour, result.minute, result.second, result.microsecond),
+                                                eq(spec.tod_us(result.hour, result.minute, result.second, result.microsecond), spec.tod_us(*(time or (0, 0, 0, 0))))))]
+            if tzv is None:
+                out.append(("tz_option_is_the_zone_of_a_string_without_offset", isinstance(t, Obj) and "_offset" in t.f and sym.eq(t.f["_offset"], tz.f["_offset"])))
+            else:
+                out.append(("offset_of_the_string_wins_over_the_tz_option", _zone_clause(result, tzv)))
+            return out
+
+    case.__name__ = _p.shape_name(*sh)
+    return case
+
+
+@contract("props.C07.c07_parse_tz", props=["C07"])
+class c07_parse_tz_lemma:
+    cases = {_p.shape_name(*sh): _tz_case(sh) for sh in (("Y-M-D", "T", "hh:mm:ss", None, ""), ("Y-M-D", "T", "hh:mm:ss", None, "Z"), ("Y-M-D", "T", "hh:mm:ss", None, "+hh:mm"),
+                                                          ("Y-M-D", " ", "hhmmss", (".", 6), "-hhmm"), ("Y-M-D", None, None, None, ""), ("YMD", "T", "hh:mm", None, "+hh"))}
+
+
 @contract("props.C07.c07_parse", props=["C07"])
 class c07_parse_lemma:
     cases = _wrap_cases(False)
@@ -159,7 +218,7 @@ ASSUMPTIONS = [
     "A-RE: the real compiled regex ISO8601_DT is executed by CPython's re on two representatives of each shape; its group spans depend only on the shape because every class/literal of the pattern treats the ten digits alike (checked mechanically on the parsed pattern on every run)",
     "string shape: proofs are per shape (which separators/designators are present, how many digits each run has); digits are symbolic. Quick tier: a covering family of 107 shapes; thorough tier: the full product of date forms x separators x time structures x offset forms with eight fraction variants (about 3,400 shapes)",
     "stdlib contracts assumed: int() of a digit string, str slicing/split/startswith/format padding, datetime.date/time/datetime constructors (ValueError exactly outside their documented ranges), date + timedelta, FixedTimezone.__init__",
-    "pendulum.parse(text) and pendulum.parse(text, exact=True) are proved per shape on the 107 covering shapes (harness lemmas c07_parse / c07_parse_exact: parser.parse, parser._parse, parsing.parse, _parse, _normalize, parse_iso8601 executed from their source; DateTime/Date/Time construction through the contracts of pendulum.datetime/date/time proved under C02); the tz= option, now=, the thorough-tier shape product and the fallback chain for other text are checked bounded only",
+    "pendulum.parse(text) and pendulum.parse(text, exact=True) are proved per shape on the 107 covering shapes (harness lemmas c07_parse / c07_parse_exact: parser.parse, parser._parse, parsing.parse, _parse, _normalize, parse_iso8601 executed from their source; DateTime/Date/Time construction through the contracts of pendulum.datetime/date/time proved under C02); pendulum.parse(text, tz=<any fixed-offset zone>) is proved on six shapes (lemma c07_parse_tz: the option is the zone of a string without an offset and never replaces an offset the string carries, also a zero one); named zones as tz=, now=, the thorough-tier shape product at the parse() level and the fallback chain for other text are checked bounded only",
     "time-only strings with an offset and exact=True: parser.py drops the offset (known finding C07-time-offset-dropped, matched at the bounded level); the wrapper lemma states no zone clause for those shapes",
     "Rust parser (rust/src/parsing.rs): never proved; rebuilt from the working tree on every run and compared with the constructive oracle (bounded)",
 ]
@@ -175,7 +234,7 @@ def bounded(ctx):
 
 
 MANIFEST_ENTRY = {
-    "text": "For every well-formed string shape (calendar / ordinal / week date, basic or extended, reduced forms, T or space, five time structures, fraction of 1..9 digits after '.' or ',', Z or +-hh[[:]mm]) and ALL digit values, the pure-Python parse_iso8601 is proved to raise a ValueError exactly when the digits denote an impossible date, ordinal, week, weekday, time or offset and otherwise to return exactly the denoted date, time, microsecond (truncated) and offset. The public entry point pendulum.parse(text) / parse(text, exact=True) is proved on the same covering shapes to return the DateTime (UTC, or the denoted fixed offset), Date or Time with exactly the denoted ordinal, time of day and zone, the narrowest type with exact=True, and a ValueError exactly for impossible values. The compiled parser, the tz option and the inversion of isoformat/str/to_iso8601_string/to_rfc3339_string/atom/w3c are checked bounded against a constructive oracle on both backends.",
+    "text": "For every well-formed string shape (calendar / ordinal / week date, basic or extended, reduced forms, T or space, five time structures, fraction of 1..9 digits after '.' or ',', Z or +-hh[[:]mm]) and ALL digit values, the pure-Python parse_iso8601 is proved to raise a ValueError exactly when the digits denote an impossible date, ordinal, week, weekday, time or offset and otherwise to return exactly the denoted date, time, microsecond (truncated) and offset. The public entry point pendulum.parse(text) / parse(text, exact=True) is proved on the same covering shapes to return the DateTime (UTC, or the denoted fixed offset), Date or Time with exactly the denoted ordinal, time of day and zone, the narrowest type with exact=True, and a ValueError exactly for impossible values. With tz=<fixed-offset zone> the option is proved to be the zone of a string without an offset and never to replace an offset the string carries. The compiled parser, named zones as tz option and the inversion of isoformat/str/to_iso8601_string/to_rfc3339_string/atom/w3c are checked bounded against a constructive oracle on both backends.",
     "note": "Trusted: pyvc, z3/cvc5, A-RE (regex run on shape representatives; digit-invariance of the pattern checked mechanically). Proof is per shape: quick tier 107 covering shapes, thorough tier the full group product (about 3,400 shapes). Genuine defects of the Python parser found by refuted obligations and fixed (week 00 / weekday 0 accepted; bare hhmmss with hour < 10; week dates before year 1000; offsets of 24 h or more; the offset of a time-only string dropped by parse()). Rust defects (last day of month in ordinal/week dates, 'Thh:mm:ss', bare hh/hhmmss, week 00) are bounded known findings; Rust is never proved.",
     "technique": "contract-based deductive verification per string shape (symbolic execution of the real parser with symbolic digits, z3/cvc5); bounded constructive-oracle sweeps for the Rust parser and the public parse() entry point",
     "design_ref": "DESIGN.md section 8 (C07), 12",
